@@ -52,10 +52,13 @@ class Work:
             shutil.rmtree(self.dir, ignore_errors=True)
 
 
-def run(cmd, env=None, timeout=600, cwd=None, stdin=None):
+def run(cmd, env=None, timeout=600, cwd=None, stdin=None, cpu_limit=None):
     e = dict(os.environ)
     if env:
         e.update(env)
+    if cpu_limit:
+        # CPU-time limit (immune to machine load): a process far beyond its normal CPU use is spinning; it dies by SIGXCPU
+        cmd = ['sh', '-c', 'ulimit -t %d; exec "$@"' % int(cpu_limit), 'sh'] + list(cmd)
     try:
         p = subprocess.run(cmd, env=e, cwd=cwd, stdout=subprocess.PIPE, stderr=subprocess.PIPE, timeout=timeout, input=stdin)
         return p.returncode, p.stdout.decode('utf-8', 'replace'), p.stderr.decode('utf-8', 'replace')
@@ -150,9 +153,35 @@ def norm_path(p, repo=None):
     return p
 
 
+MSAN_RE = re.compile(r'WARNING: MemorySanitizer: ([\w-]+)')
+MSAN_ORIGIN_RE = re.compile(r"Uninitialized value was created by an allocation of '([^']*)' in the stack frame of function '([^']*)'")
+
+
 def parse_sanitizer(stderr, repo=None):
     """Return list of (key, detail) for sanitizer reports found in stderr."""
     out = []
+    mm = MSAN_RE.search(stderr)
+    if mm:
+        # the value is usually *used* in the monitor (compared, hashed, printed); what identifies the defect is where it was
+        # created: the library function owning the variable, else the first library frame of any of the stacks
+        om = MSAN_ORIGIN_RE.search(stderr)
+        fn, fl = '-', '-'
+        created = stderr[stderr.find('Uninitialized value was created'):] if 'Uninitialized value was created' in stderr else ''
+        for txt in (created, stderr):
+            for fm in FRAME_RE.finditer(txt):
+                path = norm_path(fm.group(2), repo)
+                if path.startswith(('src/', 'examples/', 'include/')):
+                    fn, fl = fm.group(1), path
+                    break
+            if fn != '-':
+                break
+        if fn == '-' and om:
+            fn = om.group(2)
+        if fn == '-':
+            fm = FRAME_RE.search(stderr)
+            fn, fl = (fm.group(1), 'monitor') if fm else ('-', '-')
+        out.append(('MemorySan:%s:%s:%s%s' % (mm.group(1), fl, fn, (':' + om.group(1)) if om else ''),
+                    dict(report=stderr[mm.start():mm.start() + 2500])))
     m = SAN_RE.search(stderr)
     if m:
         tool, msg = m.group(1), m.group(2)
@@ -214,14 +243,14 @@ def parse_output(obs, stdout, tag=None):
     return ended
 
 
-def run_monitor(obs, binary, env, tag=None, timeout=1200, sanitizer_env=True, wrapper=None):
+def run_monitor(obs, binary, env, tag=None, timeout=1200, sanitizer_env=True, wrapper=None, cpu_limit=None):
     """Run one monitor process; fold its observations into obs.  Returns (rc, stdout, stderr)."""
     e = {}
     if sanitizer_env:
         e.update(ASAN_ENV)
     e.update({k: str(v) for k, v in env.items()})
     cmd = (wrapper or []) + [binary]
-    rc, so, se = run(cmd, env=e, timeout=timeout)
+    rc, so, se = run(cmd, env=e, timeout=timeout, cpu_limit=cpu_limit)
     obs.procs += 1
     ended = parse_output(obs, so, tag)
     reports = parse_sanitizer(se)
@@ -341,6 +370,18 @@ def compile_ilp32(work, name, sources):
     return compile_many(work, name, srcs, flags, link_flags=['-m32', '-nostdlib', '-static', '-no-pie'])
 
 
+MSAN_FLAGS = ['-fsanitize=memory', '-fsanitize-memory-track-origins=2', '-fno-omit-frame-pointer', '-O0', '-g']
+
+
+def compile_msan(work, name, sources):
+    """clang MemorySanitizer build of a monitor (everything in the process except libc is instrumented: the monitors are plain C
+    and use only libc functions that MSan intercepts).  -O0 keeps locals in memory so that the origin names the variable."""
+    try:
+        return compile_many(work, name, sources, MSAN_FLAGS, cc='clang')
+    except HarnessError as e:
+        return None
+
+
 def run_variant(obs, binary, jobs, seed, label, timeout=1200):
     """Run monitor jobs in an alternative build of the same sources; fold results into obs with a [built-<label>] key suffix."""
     o2 = Obs()
@@ -351,7 +392,7 @@ def run_variant(obs, binary, jobs, seed, label, timeout=1200):
     def one(env):
         e = dict(env)
         e.setdefault('VP_SEED', seed)
-        return run_monitor(o2, binary, e, tag=label, sanitizer_env=False, timeout=timeout)
+        return run_monitor(o2, binary, e, tag=label, sanitizer_env=False, timeout=timeout, cpu_limit=max(120, timeout // 4))
     run_parallel(one, jobs)
     for k, x in o2.viol.items():
         obs.add_viol('%s[built-%s]' % (k, label), x['details'][0] if x['details'] else None, count=x['count'], source=x.get('source'))
